@@ -115,6 +115,10 @@ class Check:
                     self.violation("%s on build '%s': specification and implementation disagree on %s" % (name, variant, sorted(b["diff"].keys())),
                                    [{"e": b["e"], "in": b["in"], "out": b["spec_out"], "impl_out": b["impl_out"]}], variant)
         log("[%s] replay %s on %s: %d records, %d disagreements" % (self.pid, name, variant, len(recs), len(bad)))
+        # the pinned configuration once more on a context whose SHA-256 compression function was replaced by a correct one
+        # (C20: results are a function of the arguments only); cheap: only the harness runs again
+        if variant == "std" and env is None and getattr(self, "auto_custom_sha", True) and len(recs) <= 300000 and not self.violations:
+            self.replay(recs, variant, name + " [replaced SHA-256 compression]", soft=soft, soft_trace=soft_trace, env={"VH_CUSTOM_SHA": "1"})
 
     @staticmethod
     def label_of(r):
